@@ -306,6 +306,8 @@ def run_program(ctx, prog, k):
     if "error" in j or "t" not in j or (isinstance(j["t"], dict) and "error" in j["t"]):
         ctx.violation("[%s] the front end rejects a well-formed corpus program: %s" % (label, str(j)[:200]), shape="corpus program rejected by the front end")
         return
+    ctx.require(not j.get("__facade_mismatch__"), "[%s] Workspace::tir(name) hands out the IR lowering produced for that transaction (differs for: %s)" % (label, j.get("__facade_mismatch__")),
+                shape="Workspace hands out another transaction's IR")
     tx = tirload.load(eng, j["t"], "Tx")
     ctx.current_tirj = j["t"]
     ctx.replayable_shapes = REPLAYABLE
@@ -894,9 +896,21 @@ def s_p19(ctx, T, tx, fee, F, A, label):
             ctx.require(z3.SignExt(64, eng.to_bv(got[tuple(b"GOLD")], 64)) == -1, "[%s] one unit is burned" % label, shape="burn quantity differs")
 
 
+def s_p20(ctx, T, tx, fee, F, A, label):
+    """two transactions whose names differ only in case: `t` is compiled from its own body"""
+    q = sym(ctx, "q")
+    lov = sym(ctx, "src.lovelace")
+    ctx.eng.assume(lov - F - q >= 0)
+    args = amap([("q", intarg(T, q)), ("alice", A("alice")), ("bob", A("bob"))])
+    body, _ = finish(ctx, tx, args, amap([("src", utxo(T, 1, lov))]), fee, label)
+    if body is None:
+        return
+    check_outputs(ctx, body, [dict(address=ADDR["bob"], coin=q), dict(address=ADDR["alice"], coin=lov - F - q)], label)
+
+
 SPECS = {"p01_int_arith": s_p01, "p02_asset_arith": s_p02, "p03_datum_spread": s_p03, "p04_mint_meta": s_p04,
          "p05_lists_concat": s_p05, "p06_locals_env": s_p06, "p07_time": s_p07, "p08_two_inputs": s_p08,
-         "p09_record_order": s_p09, "p10_negate_parens": s_p10, "p11_policy_contexts": s_p11, "p12_nested_access": s_p12, "p13_concat_mint_net": s_p13, "p14_time_back_meta": s_p14, "p15_datum_fields_elsewhere": s_p15, "p16_min_utxo_optional": s_p16, "p17_withdrawal_donation": s_p17, "p18_publish_cert": s_p18, "p19_asset_alias_many": s_p19}
+         "p09_record_order": s_p09, "p10_negate_parens": s_p10, "p11_policy_contexts": s_p11, "p12_nested_access": s_p12, "p13_concat_mint_net": s_p13, "p14_time_back_meta": s_p14, "p15_datum_fields_elsewhere": s_p15, "p16_min_utxo_optional": s_p16, "p17_withdrawal_donation": s_p17, "p18_publish_cert": s_p18, "p19_asset_alias_many": s_p19, "p20_two_txs_by_case": s_p20}
 
 
 def _h(name, fn, bounds, tier="quick", **kw):
